@@ -303,7 +303,7 @@ fn run_conversions<E: Elem>(c: usize, r: usize, ctx: &mut Ctx) {
         for f in 0..=n {
             for b in 0..=(n - f) {
                 ctx.case(
-                    || format!("TooDee<{}> {}x{} {}: into_iter() take {} front, {} back, rest via rev()", E::NAME, c, r, if spare { "spare" } else { "exact" }, f, b),
+                    || format!("TooDee<{}> {}x{} {}: into_iter() take {} front, {} back, rest via a jump / adaptor path", E::NAME, c, r, if spare { "spare" } else { "exact" }, f, b),
                     |cs| {
                         cs.nontrivial((E::NAME, c, r, spare, f, b));
                         cs.outcome("into_iter");
@@ -319,14 +319,43 @@ fn run_conversions<E: Elem>(c: usize, r: usize, ctx: &mut Ctx) {
                         for _ in 0..b {
                             gb.push(it.next_back().map(|e| e.label()).unwrap_or(u32::MAX));
                         }
-                        let rest: Vec<u32> = it.rev().map(|e| e.label()).collect();
+                        // the rest through one of several paths (jumps from either end, adaptors)
+                        let mid: Vec<u32> = labels[f..n - b].to_vec();
+                        let mode = (f + 2 * b) % 6;
+                        let (rest, er): (Vec<u32>, Vec<u32>) = match mode {
+                            0 => (it.rev().map(|e| e.label()).collect(), mid.iter().rev().copied().collect()),
+                            1 => {
+                                let first = it.nth_back(1).map(|e| e.label());
+                                let mut got: Vec<u32> = first.into_iter().collect();
+                                got.extend(it.map(|e| e.label()));
+                                let mut exp: Vec<u32> = Vec::new();
+                                if mid.len() >= 2 {
+                                    exp.push(mid[mid.len() - 2]);
+                                    exp.extend(mid[..mid.len() - 2].iter().copied());
+                                }
+                                (got, exp)
+                            }
+                            2 => {
+                                let first = it.nth(1).map(|e| e.label());
+                                let mut got: Vec<u32> = first.into_iter().collect();
+                                got.extend(it.rev().map(|e| e.label()));
+                                let mut exp: Vec<u32> = Vec::new();
+                                if mid.len() >= 2 {
+                                    exp.push(mid[1]);
+                                    exp.extend(mid[2..].iter().rev().copied());
+                                }
+                                (got, exp)
+                            }
+                            3 => (it.rev().skip(1).map(|e| e.label()).collect(), mid.iter().rev().skip(1).copied().collect()),
+                            4 => (it.skip(1).step_by(2).map(|e| e.label()).collect(), mid.iter().skip(1).step_by(2).copied().collect()),
+                            _ => (it.rev().step_by(2).map(|e| e.label()).collect(), mid.iter().rev().step_by(2).copied().collect()),
+                        };
                         let ef: Vec<u32> = labels[..f].to_vec();
                         let eb: Vec<u32> = labels[n - b..].iter().rev().copied().collect();
-                        let er: Vec<u32> = labels[f..n - b].iter().rev().copied().collect();
                         if !E::ZST && (gf != ef || gb != eb || rest != er) {
-                            cs.fail("conv:into_iter", format!("front {:?} back {:?} rest(reversed) {:?}; expected {:?} {:?} {:?}", gf, gb, rest, ef, eb, er));
+                            cs.fail("conv:into_iter", format!("front {:?} back {:?} rest (path {}) {:?}; expected {:?} {:?} {:?}", gf, gb, mode, rest, ef, eb, er));
                         }
-                        if E::ZST && (gf.len(), gb.len(), rest.len()) != (f, b, n - f - b) {
+                        if E::ZST && (gf.len(), gb.len(), rest.len()) != (f, b, er.len()) {
                             cs.fail("conv:into_iter", "wrong number of items".into());
                         }
                         if E::TRACKED && !E::ZST {
@@ -482,7 +511,7 @@ impl Prop for C20P {
     fn rule(&self) -> String {
         "dimension pairs over {0..=N, 2^31, 2^32, 2^32+1, 2^63, usize::MAX/2+1, usize::MAX-1, usize::MAX}^2: new and init (element types u32, Tracked, zero-sized): exactly one zero => panic, overflow => panic, (0,0) => empty, small product => every cell is the default / the given value (huge non-overflowing products are skipped for sized types and executed for () up to 2^20 x 3); \
          from_vec (exact / spare capacity) and from_box for all pairs x every buffer length 0..=N^2+1: accepted iff zero rule, no overflow and c*r == len, then the buffer's cells in row-major order; TooDeeView::new / TooDeeViewMut::new: accepted iff zero rule, no overflow, c*r <= len, cells by address; default / with_capacity => (0,0). \
-         Conversions for every shape: Vec::from, Box::from, into_iter() with every (front, back) split and the rest reversed, AsRef<[T]>, AsRef<Vec<T>>, AsMut, clone() and clone_from() equal and independent, TooDee::from(view | view_mut | view-from-view_mut) for every window; drop ledger balanced. \
+         Conversions for every shape: Vec::from, Box::from, into_iter() with every (front, back) split and the rest through rev / nth / nth_back / rev+skip / skip+step_by / rev+step_by, AsRef<[T]>, AsRef<Vec<T>>, AsMut, clone() and clone_from() equal and independent, TooDee::from(view | view_mut | view-from-view_mut) for every window; drop ledger balanced. \
          == / Hash: all arrays with <= 4 cells over {0,1} (1x4, 2x2, 4x1 share a length), all pairs: equal iff same dimensions and cells, equal => same DefaultHasher digest also across capacities. \
          A case is one constructor call / conversion bundle / comparison row; non-trivial = accepted; distinct by arguments."
             .into()
